@@ -128,11 +128,24 @@ def head_start(F, rep, f):
     key = skey(F, f, "head-start")
     try:
         paths = booltab.extract_outcomes(f, start, stop=stops, targets=targets)
+        def fkey(a):
+            """a test of the same variable at two places is one free variable"""
+            l = op_local(a.args[0])
+            for _ in range(4):
+                nxt = None
+                for st in f.blocks[a.bb]["s"]:
+                    if st["k"] == "a" and st["lhs"] == {"l": l} and st["rv"]["k"] == "use" and st["rv"]["o"]["k"] in ("copy", "move") and not st["rv"]["o"]["p"].get("p"):
+                        nxt = st["rv"]["o"]["p"]["l"]
+                if nxt is None:
+                    break
+                l = nxt
+            named = {pl["l"] for n, pl in f.vars if not pl.get("p")}
+            return ("var", l) if l in named and str(f.locals[l]) == "bool" else ("bb", a.bb)
         free = {}
         for conds, lab in paths:
             for a, v in conds:
                 if a.kind == "switch":
-                    free.setdefault(a.bb, set()).add(v)
+                    free.setdefault(fkey(a), set()).add(v)
 
         def classify(a):
             if a.kind == "cmp" and a.name in ("Eq", "Ne"):
@@ -155,7 +168,7 @@ def head_start(F, rep, f):
                 if a.kind != "switch" and classify(a) is None:
                     raise Unsupported("test %s at bb%d" % (a.name, a.bb))
         import itertools
-        frees = sorted(free)
+        frees = sorted(free, key=str)
         want = {(True, True): "clear", (True, False): "clear", (False, True): "arm", (False, False): "stop"}
         exact, bad = 0, []
         for combo in itertools.product(*[sorted(free[b], key=str) for b in frees]):
@@ -165,7 +178,7 @@ def head_start(F, rep, f):
                 for unarmed in (True, False):
                     def value_of(a):
                         if a.kind == "switch":
-                            return fv[a.bb]
+                            return fv[fkey(a)]
                         nm, neg = classify(a)
                         return ({"preferred": pref, "unarmed": unarmed}[nm]) != neg
                     got[(pref, unarmed)] = booltab.outcome(paths, value_of)
